@@ -90,6 +90,9 @@ func c15Commands() []c15Cmd {
 		{Name: "format other extension", Args: []string{"regex", "format", "notes.txt"}, Targets: raFiles},
 		{Name: "format similar extension", Args: []string{"regex", "format", "inc.raw"}, Targets: raFiles},
 		{Name: "format dotted name with other extension", Args: []string{"regex", "format", "words.v2.txt"}, Targets: raFiles},
+		{Name: "format absolute path outside the root", Args: []string{"regex", "format", "{SB}/other/regex-assembly/999999"}, Targets: raFiles},
+		{Name: "format absolute path outside the root with extension", Args: []string{"regex", "format", "{SB}/outer.ra"}, Targets: raFiles},
+		{Name: "format relative path outside the root", Args: []string{"regex", "format", "../../../outer"}, Targets: raFiles},
 		{Name: "format --check other extension", Args: []string{"regex", "format", "-c", "notes.txt"}, Inspect: true},
 		{Name: "format upper-case class", Args: []string{"regex", "format", "upper"}, Targets: one("crs/regex-assembly/include/upper.ra")},
 		{Name: "format unbalanced", Args: []string{"regex", "format", "unbalanced"}, Targets: one("crs/regex-assembly/include/unbalanced.ra")},
@@ -186,7 +189,10 @@ func C15(r *core.Run) {
 					os.RemoveAll(sb)
 					c15Sandbox(mask).Materialise(sb)
 					before := core.Snapshot(sb)
-					args := cmd.Args
+					args := append([]string{}, cmd.Args...)
+					for i := range args {
+						args[i] = strings.ReplaceAll(args[i], "{SB}", sb)
+					}
 					cwd := sb
 					switch mode {
 					case "-d root":
@@ -242,7 +248,9 @@ func C15(r *core.Run) {
 		idx := 0
 		for _, names := range [][2]string{{"crs[1]", "crs1"}, {"c?s", "crs"}, {"cr*", "crsx"}, {"a[b-c]d", "abd"}, {`c\rs`, "crs"}, {"{crs}", "crs"},
 			// a complete tree nested below another complete tree: the nearest root is the resolved one
-			{"outer/plugins/inner", "outer"}, {"outer/tests/fixture", "outer"}} {
+			{"outer/plugins/inner", "outer"}, {"outer/tests/fixture", "outer"},
+			// a root that is itself called like the directory every root contains
+			{"w/regex-assembly", "w"}, {"w/rules", "w"}} {
 			for _, cmd := range c15Commands() {
 				if cmd.Inspect || strings.Contains(cmd.Name, "missing") {
 					continue
